@@ -45,6 +45,13 @@ pub fn gen(scen: &str, k: u64, seed: u64, tier: &str) -> Case {
             case.input = random_input(&mut r_in, len, case.opt.dict);
             case.rbufs = random_rbufs(&mut r_ops);
             case.src_policy = if r_f.pct(50) { benign_policy(&mut r_f) } else { IoPolicy::default() };
+            if case.fmt == "xz" && r_in.pct(30) {
+                // several concatenated streams with stream padding: faults inside the padding
+                // and the next stream's header scan
+                case.set("streams", r_in.range(2, 3) as i64);
+                case.set("pad_seed", (r_in.next_u64() >> 1) as i64);
+                case.set("multi", 1);
+            }
             case.src_policy.intr_pct = 0;
             case.set("only", -1);
             case.set("errkind", r_f.below(6) as i64);
@@ -57,6 +64,13 @@ pub fn gen(scen: &str, k: u64, seed: u64, tier: &str) -> Case {
             optgen::random_format(&mut r_opt, &mut case, ALL_FORMATS, len);
             case.input = random_input(&mut r_in, len, case.opt.dict);
             case.rbufs = random_rbufs(&mut r_ops);
+            if case.fmt == "xz" && r_in.pct(30) {
+                // several concatenated streams with stream padding: faults inside the padding
+                // and the next stream's header scan
+                case.set("streams", r_in.range(2, 3) as i64);
+                case.set("pad_seed", (r_in.next_u64() >> 1) as i64);
+                case.set("multi", 1);
+            }
             case.src_policy = benign_policy(&mut r_f);
             if case.src_policy == IoPolicy::default() {
                 case.src_policy = IoPolicy { seed: r_f.next_u64(), short_pct: 100, max_chunk: 3, intr_pct: 10 };
@@ -218,8 +232,8 @@ fn trunc(case: &Case, data: &[u8], ctx: &mut Ctx) -> Option<Violation> {
 }
 
 fn read_err(case: &Case, data: &[u8], ctx: &mut Ctx) -> Option<Violation> {
-    let stream = match prepare_stream(case, data) {
-        Ok(s) => Arc::new(s),
+    let stream = match prepare_file(case, data) {
+        Ok((s, _)) => Arc::new(s),
         Err(_) => {
             ctx.metric("skipped_writer_failed", 1);
             return None;
@@ -290,8 +304,8 @@ fn read_err(case: &Case, data: &[u8], ctx: &mut Ctx) -> Option<Violation> {
 }
 
 fn read_benign(case: &Case, data: &[u8], ctx: &mut Ctx) -> Option<Violation> {
-    let stream = match prepare_stream(case, data) {
-        Ok(s) => Arc::new(s),
+    let stream = match prepare_file(case, data) {
+        Ok((s, _)) => Arc::new(s),
         Err(_) => {
             ctx.metric("skipped_writer_failed", 1);
             return None;
